@@ -35,6 +35,7 @@ def run(ctx):
     ctx.rule('C04.c-range-agreement', 'the range re-packed equals the range the accessor exposes')
     ctx.rule('C04.d-split-agreement', 'Shards::insert and Shards::undo_last_chunk_encoding agree on the split of a partial final block')
     ctx.rule('C04.e-block-pairing', 'every zip over 64-byte blocks pairs identically sliced operands')
+    ctx.rule('C04.g-size-steers-nothing', 'above the shard store the shard size is only validated, stored, compared with a given shard and turned into a block count: no branch with two successful continuations depends on it (which code is used for a symbol slot cannot depend on how many slots a shard has)')
     ctx.rule('C04.f-lane-pairing', 'scalar kernels index blocks only with the loop variable or loop variable + 32')
     for cfg in cfgs:
         facts = ctx.facts(cfg)
@@ -45,6 +46,7 @@ def run(ctx):
         ctx.guard('C04.analysable', split_agreement, ctx, facts, cfg)
         ctx.guard('C04.analysable', block_pairing, ctx, facts, cfg)
         ctx.guard('C04.analysable', lane_pairing, ctx, facts, cfg)
+        ctx.guard('C04.analysable', size_steers_nothing, ctx, facts, cfg)
 
 
 def shard_bytes_writers(ctx, facts, cfg):
@@ -54,17 +56,29 @@ def shard_bytes_writers(ctx, facts, cfg):
     for adt in resetrules.WORKS:
         side = 'enc' if adt == roles_mod.ENC_WORK else 'dec'
         sbf = RL.field(side, 'shard_bytes')
+        rp = RL.fn.get(side + '.reset')
+        cg = core.callgraph(facts)
+        # private phases of the reset (helpers of the same object called only from it) are judged in place, inlined
+        phases = set()
+        if rp:
+            rin = core.inlined_fn(facts, rp, core.self_helper(adt))
+            phases = {q for q in getattr(rin, 'inlined', []) if cg.callers.get(q, set()) <= ({rp} | set(getattr(rin, 'inlined', [])))}
+            for w in resetrules.write_sites(facts, rin.path):
+                if w[0] == sbf:
+                    n += 1
+                    if w[1] == 'assign' and RL.norm(w[2], rp) == ('param', 'shard_bytes'):
+                        ctx.ok(R, '%s@%s' % (rp, cfg), {'at': w[5]})
+                    else:
+                        ctx.violation(R, 'foreign-writer', '%s writes shard_bytes (%s), not from its parameter' % (rp, resetrules.describe(w)),
+                                      site=w[5], fn=rp, cfg=cfg)
         for p, fn in sorted(facts.fns.items()):
-            if fn.impl_self_adt != adt:
+            if fn.impl_self_adt != adt or p == rp or p in phases:
                 continue
             for w in resetrules.write_sites(facts, p):
                 if w[0] == sbf:
                     n += 1
-                    if w[1] == 'assign' and RL.norm(w[2], p) == ('param', 'shard_bytes') and p == RL.fn.get(side + '.reset'):
-                        ctx.ok(R, '%s@%s' % (p, cfg), {'at': w[5]})
-                    else:
-                        ctx.violation(R, 'foreign-writer', '%s writes shard_bytes (%s) outside the explicit reset / not from the parameter' % (p, resetrules.describe(w)),
-                                      site=w[5], fn=p, cfg=cfg)
+                    ctx.violation(R, 'foreign-writer', '%s writes shard_bytes (%s) outside the explicit reset / not from the parameter' % (p, resetrules.describe(w)),
+                                  site=w[5], fn=p, cfg=cfg)
     ctx.floor(R, 2, n, 'writers of shard_bytes', cfg=cfg)
 
 
@@ -306,6 +320,20 @@ def split_agreement(ctx, facts, cfg):
                         return norm(c[1])
                     return tuple(norm(x) for x in c)
                 return c
+            # which block: the block insert splits and the block undo converts carry the same index expression (len / 64)
+            def block_index(body, recv):
+                c = recv
+                while isinstance(c, tuple) and c and c[0] in ('cast', 'ref', 'deref'):
+                    c = c[2] if c[0] == 'cast' else c[1]
+                if isinstance(c, tuple) and c and c[0] == 'index':
+                    return c[2]
+                return None
+            sp = [t2 for b2, t2 in ib.calls() if (t2['callee'].get('path') or '').endswith('::split_at_mut') and ib.canon_op(t2['args'][1])[0] == 'const']
+            bi_ins = block_index(ib, ib.canon_op(sp[0]['args'][0])) if sp else None
+            bi_und = block_index(ub, ub.canon_op(t['args'][0]))
+            if bi_ins is None or bi_und is None or norm(bi_ins) != norm(bi_und):
+                problems.append('insert puts the partial block at index %s of the shard but undo converts the block at %s: the two cannot be shown to be the same block'
+                                % (core.show(bi_ins) if bi_ins else '?', core.show(bi_und) if bi_und else core.show(ub.canon_op(t['args'][0]))[:80]))
             if c05.lin(en) != c05.lin(('bin', 'Add', ('const', K), dst)):
                 problems.append('undo moves %s..%s to %s: length is not the destination offset (tail_len / 2)' % (core.show(st), core.show(en), core.show(dst)))
             if norm(dst) != norm(half_i):
@@ -315,7 +343,13 @@ def split_agreement(ctx, facts, cfg):
             ctx.violation(R, re.sub(r'[^A-Za-z_]+', '-', pb)[:60], pb, site=und.span, fn=und.path, cfg=cfg)
     else:
         ctx.ok(R, 'insert~undo@%s' % cfg, {'half_block_offset': K, 'half_tail': core.show(half_i)})
-    # Shards::resize rewrites every field of Shards (nested store of the work objects), C05.a extension
+    store_resize_complete(ctx, facts, cfg, R)
+
+
+def store_resize_complete(ctx, facts, cfg, R='C04.d-split-agreement'):
+    """Shards::resize rewrites every field of Shards (nested store of the work objects) on every path, so that the
+    geometry the store slices by is the one the work object was configured with (shared by C04.d, C05.a and C06.d)"""
+    RL = roles_mod.roles(facts)
     adt = facts.adts.get(RL.store_adt or '')
     rz = facts.fns.get(RL.fn.get('store.resize') or '')
     if adt and rz:
@@ -405,3 +439,90 @@ def lane_pairing(ctx, facts, cfg):
         if total == 0:
             # no indexed access at all: the kernels iterate with zip over equally sliced halves (decided by C04.e)
             ctx.ok(R, '%s:no-indexed-access@%s' % (adt.split('::')[-1], cfg), None, nontrivial=False)
+
+
+def size_steers_nothing(ctx, facts, cfg):
+    """C04.g: value-flow of the shard size through the rate layer, the wrappers and the one-shot functions.  A switch whose
+    discriminant derives from it is a validation when at most one of its outgoing edges can reach a successful exit;
+    with two it selects between behaviours by shard size."""
+    R = 'C04.g-size-steers-nothing'
+    RL = roles_mod.roles(facts)
+    in_scope = lambda p: p in ('encode', 'decode') or p.startswith(('rate::', '<rate::', 'reed_solomon::', '<reed_solomon::'))
+    size_fields = {RL.field('enc', 'shard_bytes'), RL.field('dec', 'shard_bytes'), 'shard_bytes'}
+    done = {}
+    nsw = [0]
+
+    def analyse(p, seed_params):
+        key = (p, tuple(sorted(seed_params)))
+        if key in done:
+            return
+        done[key] = True
+        f = facts.fns.get(p)
+        if f is None or not in_scope(p):
+            return
+        body = f.body
+        seeds = set(seed_params)
+        for b in range(body.n):
+            blk = body.blocks[b]
+            if blk['cleanup']:
+                continue
+            for st in blk['stmts']:
+                if st['k'] == 'assign' and st['rv']['k'] == 'use':
+                    pl = op_place(st['rv']['op'])
+                    if pl is not None and any(isinstance(e, dict) and e.get('f') in size_fields for e in pl['p']) and \
+                            'Work' in body.local_ty(pl['l']):
+                        seeds.add(st['lhs']['l'])
+        if not seeds:
+            return
+        num = lambda c: re.search(r'^core::num::|::div_ceil$|^std::cmp::(min|max)', c.get('path') or '') is not None
+        flow = core.forward_flow(body, seeds, through_calls=num)
+        if body.local_ty(0).startswith('std::result::Result<'):
+            errs, oks = core.result_exits(body)
+            succ_blocks = {b for (b, k, d) in oks}
+        else:
+            succ_blocks = set(body.exits())
+        for b in range(body.n):
+            t = body.term(b)
+            if body.blocks[b]['cleanup']:
+                continue
+            if t['k'] == 'switch':
+                pl = op_place(t['discr'])
+                if pl is None or pl['l'] not in flow:
+                    continue
+                # `old size == new size` compares two shard sizes with each other: what it selects cannot depend on the size itself
+                ds = [d for d in body.defs().get(pl['l'], []) if d[0] == 'stmt']
+                if len(ds) == 1:
+                    rv = body.blocks[ds[0][1]]['stmts'][ds[0][2]]['rv']
+                    if rv['k'] == 'bin' and rv['op'] in ('Eq', 'Ne') and all(op_place(rv[x]) is not None and op_place(rv[x])['l'] in flow for x in ('a', 'b')):
+                        continue
+                nsw[0] += 1
+                outs = sorted({tgt for _, tgt in t['targets']} | {t['otherwise']})
+                live = [o for o in outs if (body.reachable_from(o) & succ_blocks)]
+                if len(live) >= 2:
+                    ctx.violation(R, 'steers', '%s branches on a value derived from the shard size at %s and %d of the outcomes continue to a successful result: behaviour other than acceptance depends on the shard size'
+                                  % (p, t['line'], len(live)), site=t['line'], fn=p, cfg=cfg)
+                else:
+                    ctx.ok(R, '%s:validation@%s' % (p, cfg), None, nontrivial=False)
+            elif t['k'] == 'call':
+                q = t['callee'].get('path')
+                g = facts.fns.get(q)
+                if g is None:
+                    continue
+                idx = [i for i, a in enumerate(t['args']) if op_place(a) is not None and op_place(a)['l'] in flow and not op_place(a)['p']]
+                if idx and in_scope(q):
+                    analyse(q, {i + 1 for i in idx})
+                elif idx and g.in_trait and not g.hir:
+                    pass
+    roots = 0
+    for p, f in sorted(facts.fns.items()):
+        if not in_scope(p):
+            continue
+        pn = f.param_names()
+        pm = RL.params.get(p, {})
+        sp = {i + 1 for i, n in enumerate(pn) if n and (pm.get(n, n) == 'shard_bytes')}
+        if sp:
+            roots += 1
+        analyse(p, sp)
+    ctx.ok(R, 'flow@%s' % cfg, {'functions_with_a_shard_size_parameter': roots, 'size_dependent_branches_examined': nsw[0]})
+    ctx.floor(R, 10, roots, 'functions taking the shard size', cfg=cfg)
+    ctx.floor(R, 3, nsw[0], 'branches on the shard size (validations)', cfg=cfg)
